@@ -13,6 +13,7 @@ from hypothesis import strategies as st
 from vlib import gen, observe, pdbio, common
 
 PROPERTY = "C16"
+REDUCE_KEYS = ["pdb"]
 LEVEL = "exploration"
 RULE = ("structure stage: whole reference proteins with threaded clusters (acid-acid, base-base, his-his, cys-cys, "
         "cys-his, acid-base, tyr-any pairs and triples around buried positions; library ions and ligands placed next "
